@@ -3,6 +3,7 @@ package storesim
 import (
 	"bytes"
 	"fmt"
+	"golang.org/x/crypto/sha3"
 	"math/big"
 	"sort"
 	"strings"
@@ -39,6 +40,26 @@ type acct struct {
 	owner    int // index into owners, -1 = none
 	blocked  bool
 	disabled bool
+	// contract life cycle (only on contract accounts); values, not pointers: acct is copied around freely
+	cur, next cmodel
+	graph     string // object graph of the current code ("" = none)
+	graphNext int
+}
+
+// cmodel is the reference view of one deployed code version of a contract account.
+type cmodel struct {
+	present bool
+	code    string
+	status  int // state.CSPending / CSActive / CSRejected as int
+	deploy  string
+	audit   string
+}
+
+func (c cmodel) String() string {
+	if !c.present {
+		return "-"
+	}
+	return fmt.Sprintf("(code=%s st=%d tx=%s audit=%s)", hx([]byte(c.code)), c.status, hx([]byte(c.deploy)), hx([]byte(c.audit)))
 }
 
 func (a acct) empty() bool {
@@ -55,7 +76,7 @@ func (a acct) String() string {
 	for _, k := range ks {
 		fmt.Fprintf(&sb, " %s=%s", hxs(k), hx([]byte(a.store[k])))
 	}
-	return fmt.Sprintf("{bal=%d contract=%v owner=%d blocked=%v disabled=%v store:%s}", a.bal, a.contract, a.owner, a.blocked, a.disabled, sb.String())
+	return fmt.Sprintf("{bal=%d contract=%v owner=%d blocked=%v disabled=%v cur=%v next=%v graph=%s/%d store:%s}", a.bal, a.contract, a.owner, a.blocked, a.disabled, a.cur, a.next, hx([]byte(a.graph)), a.graphNext, sb.String())
 }
 
 type world [nAcc]acct
@@ -111,6 +132,7 @@ type worldSim struct {
 	mutations, fullChecks int
 	failed                bool
 	lastMut               string
+	txSeq                 int
 }
 
 var storageKeys = []string{"\x01", "\x01\x02", "\x01\x03", "\x10", "\xab\xcd\xef", "\x01\x02\x03"}
@@ -175,6 +197,29 @@ func applyAcct(as state.AccountState, a acct, owners []module.Address) {
 	if a.disabled {
 		as.SetDisable(true)
 	}
+	if a.cur.present {
+		if _, err := as.DeployContract([]byte(a.cur.code), state.JavaEE, "application/java", nil, []byte(a.cur.deploy)); err != nil {
+			panic(fmt.Sprintf("canonical rebuild: %v", err))
+		}
+		if err := as.AcceptContract([]byte(a.cur.deploy), []byte(a.cur.audit)); err != nil {
+			panic(fmt.Sprintf("canonical rebuild: %v", err))
+		}
+		if a.graph != "" {
+			if err := as.SetObjGraph(as.Contract().CodeID(), true, a.graphNext, []byte(a.graph)); err != nil {
+				panic(fmt.Sprintf("canonical rebuild: %v", err))
+			}
+		}
+	}
+	if a.next.present {
+		if _, err := as.DeployContract([]byte(a.next.code), state.JavaEE, "application/java", nil, []byte(a.next.deploy)); err != nil {
+			panic(fmt.Sprintf("canonical rebuild: %v", err))
+		}
+		if a.next.status == int(state.CSRejected) {
+			if err := as.RejectContract([]byte(a.next.deploy), []byte(a.next.audit)); err != nil {
+				panic(fmt.Sprintf("canonical rebuild: %v", err))
+			}
+		}
+	}
 	ks := make([]string, 0, len(a.store))
 	for k := range a.store {
 		ks = append(ks, k)
@@ -230,6 +275,63 @@ func (s *worldSim) observe(where string, idx int, ad state.AccountData, want acc
 	}
 	if go_ := ad.ContractOwner(); !common.AddressEqual(go_, wo) {
 		return bad("ContractOwner", go_, wo)
+	}
+	// contract life cycle as seen through this view (snapshot or mutable state)
+	type cview interface {
+		CodeHash() []byte
+		Status() state.ContractStatus
+		DeployTxHash() []byte
+		AuditTxHash() []byte
+	}
+	var gc, gn cview
+	switch v := ad.(type) {
+	case state.AccountSnapshot:
+		if c := v.Contract(); c != nil {
+			gc = c
+		}
+		if c := v.NextContract(); c != nil {
+			gn = c
+		}
+	case state.AccountState:
+		if c := v.Contract(); c != nil {
+			gc = c
+		}
+		if c := v.NextContract(); c != nil {
+			gn = c
+		}
+	}
+	for _, pr := range []struct {
+		name string
+		got  cview
+		exp  cmodel
+	}{{"Contract()", gc, want.cur}, {"NextContract()", gn, want.next}} {
+		if (pr.got != nil) != pr.exp.present {
+			return bad(pr.name+" present", pr.got != nil, pr.exp.present)
+		}
+		if pr.got == nil {
+			continue
+		}
+		h := sha3.Sum256([]byte(pr.exp.code))
+		switch {
+		case !bytes.Equal(pr.got.CodeHash(), h[:]):
+			return bad(pr.name+".CodeHash", hx(pr.got.CodeHash()), hx(h[:]))
+		case int(pr.got.Status()) != pr.exp.status:
+			return bad(pr.name+".Status", pr.got.Status(), pr.exp.status)
+		case string(pr.got.DeployTxHash()) != pr.exp.deploy:
+			return bad(pr.name+".DeployTxHash", hx(pr.got.DeployTxHash()), hx([]byte(pr.exp.deploy)))
+		case string(pr.got.AuditTxHash()) != pr.exp.audit:
+			return bad(pr.name+".AuditTxHash", hx(pr.got.AuditTxHash()), hx([]byte(pr.exp.audit)))
+		}
+	}
+	if want.cur.present && !faultyReads {
+		nh, _, g, err := ad.GetObjGraph([]byte(want.cur.deploy), true) // the code id of a deployed contract is its deploy transaction
+		if want.graph == "" {
+			if err == nil && len(g) > 0 {
+				return bad("GetObjGraph", hx(g), "none")
+			}
+		} else if err != nil || string(g) != want.graph || nh != want.graphNext {
+			return bad("GetObjGraph", fmt.Sprintf("%s/%d err=%v", hx(g), nh, err), fmt.Sprintf("%s/%d", hx([]byte(want.graph)), want.graphNext))
+		}
 	}
 	for _, k := range storageKeys {
 		inject := faultyReads && s.t.Permille("read.fault", 300)
@@ -482,6 +584,112 @@ func (s *worldSim) opContract() {
 	}
 	s.model[i].owner = o
 	s.mutated(i, "set-owner", before)
+}
+
+// opDeploy / opAudit / opObjGraph: the contract life cycle of a contract account (deploy a next code
+// version, accept or reject it by its deploy transaction, attach an object graph to the current code).
+func (s *worldSim) opDeploy() {
+	i := s.pickWhere("deploy", func(a acct) bool { return a.contract })
+	before := s.model[i]
+	h := s.handle(i)
+	s.txSeq++
+	code := []string{"code-A", "code-B", "code-C-longer-than-the-others"}[s.t.Choose("deploy.code", 3)]
+	tx := fmt.Sprintf("deploytx-%04d", s.txSeq)
+	old, err := h.DeployContract([]byte(code), state.JavaEE, "application/java", nil, []byte(tx))
+	s.rc.Event("acct %d deploy %s tx=%s -> old=%s err=%v", i, code, tx, hx(old), err != nil)
+	if !before.contract {
+		if err != nil || old != nil {
+			s.violate("world-account-mismatch", "account/deploy-on-eoa", "DeployContract on a non-contract account: old=%x err=%v", old, err)
+		}
+		return
+	}
+	if err != nil {
+		s.violate("world-unexpected-error", "account/deploy", "DeployContract: %v", err)
+		return
+	}
+	if before.next.present != (old != nil) || (old != nil && string(old) != before.next.deploy) {
+		s.violate("world-account-mismatch", "account/deploy-old-tx", "DeployContract returned previous deploy tx %x, reference %v", old, before.next)
+		return
+	}
+	s.model[i].next = cmodel{present: true, code: code, status: int(state.CSPending), deploy: tx}
+	s.rc.Probe("contract_deployed")
+	s.mutated(i, "deploy", before)
+}
+
+// pickWhere prefers an account satisfying pred (3 times out of 4 when one exists).
+func (s *worldSim) pickWhere(label string, pred func(a acct) bool) int {
+	var c []int
+	for i, a := range s.model {
+		if pred(a) {
+			c = append(c, i)
+		}
+	}
+	if len(c) > 0 && s.t.Permille(label+".prefer", 750) {
+		return c[s.t.Choose(label+".which", len(c))]
+	}
+	return s.pickAcct()
+}
+
+func (s *worldSim) opAudit() {
+	i := s.pickWhere("audit", func(a acct) bool { return a.next.present })
+	before := s.model[i]
+	h := s.handle(i)
+	accept := s.t.Choose("audit.accept", 3) != 0
+	tx := before.next.deploy
+	wrong := !before.next.present || s.t.Permille("audit.wrongtx", 150)
+	if wrong {
+		tx = "deploytx-none"
+	}
+	s.txSeq++
+	audit := fmt.Sprintf("audittx-%04d", s.txSeq)
+	var err error
+	if accept {
+		err = h.AcceptContract([]byte(tx), []byte(audit))
+	} else {
+		err = h.RejectContract([]byte(tx), []byte(audit))
+	}
+	s.rc.Event("acct %d audit accept=%v tx=%s -> err=%v", i, accept, tx, err != nil)
+	mustFail := !before.contract || !before.next.present || wrong ||
+		(accept && before.next.status == int(state.CSRejected)) || (!accept && before.next.status != int(state.CSPending))
+	if mustFail != (err != nil) {
+		s.violate("world-account-mismatch", "account/audit", "accept=%v of %v with tx %s: err=%v, reference expects failure=%v", accept, before.next, tx, err, mustFail)
+		return
+	}
+	if err != nil {
+		s.checkMutable("after-refused-audit") // a refused audit changes nothing
+		return
+	}
+	if accept {
+		n := before.next
+		n.status, n.audit = int(state.CSActive), audit
+		s.model[i].cur, s.model[i].next = n, cmodel{}
+		s.model[i].graph, s.model[i].graphNext = "", 0 // the object graph belongs to a code id (= deploy transaction)
+		s.rc.Probe("contract_accepted")
+	} else {
+		s.model[i].next.status, s.model[i].next.audit = int(state.CSRejected), audit
+		s.rc.Probe("contract_rejected")
+	}
+	s.mutated(i, "audit", before)
+}
+
+func (s *worldSim) opObjGraph() {
+	i := s.pickWhere("graph", func(a acct) bool { return a.cur.present })
+	before := s.model[i]
+	if !before.cur.present {
+		return
+	}
+	h := s.handle(i)
+	g := []string{"graph-1", "graph-two", "g3"}[s.t.Choose("graph.v", 3)]
+	nh := 1 + s.t.Choose("graph.next", 9)
+	err := h.SetObjGraph(h.Contract().CodeID(), true, nh, []byte(g))
+	s.rc.Event("acct %d objgraph %s/%d -> err=%v", i, g, nh, err != nil)
+	if err != nil {
+		s.violate("world-unexpected-error", "account/objgraph", "SetObjGraph: %v", err)
+		return
+	}
+	s.model[i].graph, s.model[i].graphNext = g, nh
+	s.rc.Probe("object_graph_set")
+	s.mutated(i, "objgraph", before)
 }
 
 func (s *worldSim) opFlag() {
@@ -747,7 +955,13 @@ func runWorld(rc *kit.RunCtx) {
 	rc.Config["profile"] = rc.Profile
 	for n := 0; n < nops && !s.failed; n++ {
 		rc.Steps++
-		switch s.t.Weighted("op", 14, 14, 8, 4, 5, 2, 6, 9, 7, 6, 5, 7, 5, 3, 4, 3) {
+		switch s.t.Weighted("op", 14, 14, 8, 7, 5, 2, 6, 9, 7, 6, 5, 7, 5, 3, 4, 3, 9, 9, 6) {
+		case 16:
+			s.opDeploy()
+		case 17:
+			s.opAudit()
+		case 18:
+			s.opObjGraph()
 		case 0:
 			s.opBalance()
 		case 1:
